@@ -213,6 +213,7 @@ GROUPS = {
     "silence": ("GenSilence.v", "TieSilence.v", ["tie_make_silence"]),
     "buf": ("GenBuf.v", "TieBuf.v", ["tie_buf_read", "tie_buf_setpos", "tie_buf_getpos", "tie_buf_getpos_ms"]),
     "fmt": ("GenFmt.v", "TieFmt.v", ["tie_fields"]),
+    "loops": ("GenLoops.v", "TieLoops.v", ["tie_run_turn", "tie_stop_requested", "tie_tok_read", "tie_programs"]),
 }
 
 
@@ -826,7 +827,12 @@ def gen_savers(repo):
     return "\n".join(out)
 
 
-GENERATORS = {"savers": gen_savers, "fsrc": gen_fsrc, "algebra": gen_algebra, "split": gen_split, "dur": gen_dur, "region": gen_region, "silence": gen_silence, "buf": gen_buf, "fmt": gen_fmt}
+def gen_loops(repo):
+    from . import loops
+    return loops.emit(repo)
+
+
+GENERATORS = {"loops": gen_loops, "savers": gen_savers, "fsrc": gen_fsrc, "algebra": gen_algebra, "split": gen_split, "dur": gen_dur, "region": gen_region, "silence": gen_silence, "buf": gen_buf, "fmt": gen_fmt}
 
 
 def emit_group(repo, group):
